@@ -512,6 +512,11 @@ func runLibs(cfg *RunCfg) {
 	for i := 0; i < cfg.N; i++ {
 		f := fams[r.Intn(len(fams))]
 		libNoInf = f.name == "json"
+		if r.Intn(8) == 0 {
+			st.Count(f.name + ":message-body")
+			bodyLibStep(r, st, i, f)
+			continue
+		}
 		switch c := r.Intn(10); {
 		case c < 5: // round trip
 			st.Count(f.name + ":roundtrip")
